@@ -377,8 +377,8 @@ func TestC19(t *testing.T) {
 			"min-priority is not required to find a selection whenever one exists (its documentation disclaims that), nor to be minimal")
 		// regression cases for the min-priority selector (see KNOWN_FINDINGS.txt)
 		kC19Sel.One(ev, c19Sel{Selector: "minpriority", Coins: []coinSpec{{0, 0}, {0, 0}, {1, 0}, {3, 1}}, Target: 0, MaxInputs: 1, MinChange: 4, MinAvg: 1})
-		kC19Sel.Run(t, ev, perShard(pick(20000, 2000000)))
-		kC19Hist.Run(t, ev, perShard(pick(3000, 300000)))
+		kC19Sel.Run(t, ev, perShard(pick(20000, 10000000)))
+		kC19Hist.Run(t, ev, perShard(pick(3000, 1500000)))
 		ev.requireClasses("C19:minindex-selected", "C19:minnumber-selected", "C19:maxvalueage-selected", "C19:minpriority-selected",
 			"C19:minindex-no-selection", "C19:remove-on-empty", "C19:removal-after-pushes", "C19:tx-built")
 	})
